@@ -158,7 +158,9 @@ void h_thread_yield_to(void)
     target.thread.state.val = ABT_THREAD_STATE_READY;
     ABTI_ythread_thread_yield_to(&p_x, &self, &target, ABT_SYNC_EVENT_TYPE_USER, NULL);
     SWITCH_COMMON(target, ABTI_ythread_callback_thread_yield_to)
-    if (REQ_CANCEL) VF_ASSERT(n_cancel == 1 && vf_self_pushes == 0, "cancelled"); else VF_ASSERT(vf_self_pushes == 1 && vf_push_ctx == (int)ABT_POOL_CONTEXT_OP_THREAD_YIELD_TO, "pushed once");
+    if (REQ_CANCEL) VF_ASSERT(n_cancel == 1 && vf_self_pushes == 0, "cancelled"); else { VF_ASSERT(vf_self_pushes == 1 && vf_push_ctx == (int)ABT_POOL_CONTEXT_OP_THREAD_YIELD_TO && vf_t_save < vf_t_push, "pushed once, after its context is saved");
+        VF_ASSERT(vf_push_pool == ((REQ_MIG && mig_ok) ? (void *)&poolB : (void *)&poolA), "... to its own pool: the NEW pool if a migration request was served in this switch (the next scheduling goes through the requested pool)");
+        VF_ASSERT(self.thread.state.val == ABT_THREAD_STATE_READY, "caller is READY"); }
     VF_ASSERT(vf_n_dec == 1 && vf_dec_pool == &poolA && poolA.num_blocked.val == a0 - 1 && poolB.num_blocked.val == b0, "the caller's pre-increment is undone on the ORIGINAL pool (read before request handling), even if the unit migrated");
     VF_ASSERT(REQ_CANCEL || vf_t_push < vf_t_dec, "decrement after the push (the pool never looks empty in between)");
     VF_REACH("thread_yield_to");
